@@ -78,8 +78,21 @@ fn generate(seed: u64, tier: Tier, em: &mut Emitter) {
     for (src, steps, parts) in join_side_barrier_cases(&mut rng, tier != Tier::Quick) {
         emit_prog(em, &src, &steps, Mode::Par(parts), true, &["sweep", "join_side_barrier"]);
     }
+    // a barrier-free side some of whose partitions are emptied by an upstream filter
+    for (src, steps, parts, pat) in emptied_join_cases(tier != Tier::Quick) {
+        emit_prog(em, &src, &steps, Mode::Par(parts), true, &["sweep", "emptied_partition", pat]);
+        if parts == 3 {
+            emit_prog(em, &src, &steps, Mode::Seq, true, &["sweep", "emptied_partition", pat]);
+        }
+    }
+    // more than 64 effective partitions on the left side of a join (thorough only)
+    for (src, steps, parts) in many_partition_cases(tier != Tier::Quick) {
+        if steps.iter().any(|s| matches!(s, Step::Join(..))) {
+            emit_prog(em, &src, &steps, Mode::Par(parts), true, &["sweep", "many_partitions"]);
+        }
+    }
     let mut rng = seed_mix(seed, 0xC07_0002);
-    let count = if tier == Tier::Quick { 950 } else { 7000 };
+    let count = if tier == Tier::Quick { 800 } else { 7000 };
     let mut made = 0;
     while made < count {
         let n = gen_len(&mut rng);
